@@ -684,6 +684,23 @@ fn derived_checks(ctx: &Ctx, rng: &mut Rng) {
             let mut wrong = m.clone();
             wrong.insert(rng.pick(&keys).clone(), OwnedTerm::Tuple(vec![]));
             derived_wrong_shape::<DRaw>(ctx, "raw-identifier-fields", "wrong-type", &OwnedTerm::Map(wrong));
+            // another struct's term that carries keys the mapping does not know, sorting before and after everything
+            // it does know (a map is visited in key order, so this moves the tag away from the first place)
+            for extra in ["A", "Meta", "_", "__a__", "zzz", "", "0"] {
+                let mut other = m.clone();
+                other.insert(OwnedTerm::atom("__struct__"), OwnedTerm::atom("Elixir.Verif.Other"));
+                other.insert(OwnedTerm::atom(extra), OwnedTerm::Integer(1));
+                derived_wrong_shape::<DRaw>(ctx, "raw-identifier-fields", "other-module-with-an-unknown-key", &OwnedTerm::Map(other));
+            }
+        }
+        // the same for a mapping one of whose own fields sorts before the tag
+        if let Ok(OwnedTerm::Map(m)) = erltf_serde::to_term(&nested) {
+            let mut other = m.clone();
+            other.insert(OwnedTerm::atom("__struct__"), OwnedTerm::atom("Elixir.Verif.Other"));
+            derived_wrong_shape::<DNested>(ctx, "nested", "other-module", &OwnedTerm::Map(other.clone()));
+            other.remove(&OwnedTerm::atom("__struct__"));
+            other.insert(OwnedTerm::atom("__struct__"), OwnedTerm::atom("Verif.Nested"));
+            derived_wrong_shape::<DNested>(ctx, "nested", "module-without-the-Elixir-prefix", &OwnedTerm::Map(other));
         }
     }
 }
